@@ -141,7 +141,10 @@ pub fn corr(ctx: &mut Ctx) {
         ctx.line(&format!("sig str {}", join(&cps)), &hexb(&st.get_sig()));
     }
     // vectors
-    let lens: Vec<usize> = if ctx.quick() { vec![0, 1, 2, 3, 20, 300] } else { vec![0, 1, 2, 3, 20, 300, 4096, 20000] };
+    // every length up to 34 (block boundaries of any small unrolling factor), then around powers of two
+    let mut lens: Vec<usize> = (0..=34).collect();
+    lens.extend_from_slice(&[47, 48, 49, 63, 64, 65, 127, 128, 129, 255, 256, 257, 300, 1024]);
+    if !ctx.quick() { lens.extend_from_slice(&[4095, 4096, 4097, 20000, 65536, 65537]); }
     for (i, n) in lens.iter().enumerate() {
         let v8: Vec<u8> = (0..*n).map(|_| ctx.rng.next() as u8).collect();
         ctx.begin_case(&format!("sig vec n={}", n));
